@@ -153,7 +153,7 @@ class C19(object):
                         "workers": rnd.choice([1, 1, 2, 3])} for _ in range(rnd.randint(1, 3))]
         return {"entry": "run_iradon", "ncores": ncores, "ystep": ystep, "ny": ny, "full": full, "nang": nang, "ymin": ymin,
                 "zero_cols": rnd.choice(["none", "none", "halves", "random", "random", "one", "cancel"]), "segments": rnd.choice([1, 2, 2, 3, 5]),
-                "halfmask_story": rnd.random() < 0.15, "h5_roundtrip": rnd.random() < 0.5,
+                "halfmask_story": rnd.random() < 0.15, "varshift": rnd.choice([None, None, None, "jitter", "drift"]), "h5_roundtrip": rnd.random() < 0.5,
                 "pbp_setmask": rnd.random() < 0.2, "interp_kind": rnd.choice([None, None, None, "cubic", "nearest"]),
                 "two_objects": rnd.random() < 0.5, "mask_layout": rnd.choice(["c", "c", "f", "t", "view"]),
                 "nonsquare": [rnd.randint(0, 9), rnd.randint(0, 9)],
@@ -565,6 +565,34 @@ class C19(object):
             if not d <= lim:
                 viol = V("not-linear", "iradon(a*s1+s2) differs from a*iradon(s1)+iradon(s2) by %.3g (limit %.3g; empty "
                                        "projections: %s)" % (d, lim, zc))
+        if viol is None and desc.get("varshift") and mt:
+            # iradon called directly with shifts that differ from projection to projection (what a per-projection
+            # alignment delivers): the pool's result against the caller's own thread
+            gsh = np.random.default_rng(desc["mseed"] ^ 0x5517)
+            per = shift + gsh.uniform(-2, 2, sino.shape[1]) * (desc["varshift"] == "jitter") + \
+                np.linspace(-1.5, 1.5, sino.shape[1]) * (desc["varshift"] == "drift")
+            ps = np.repeat(per[None, :], sino.shape[0], axis=0)
+            ri = self.ri
+
+            def call_v(w):
+                return lambda: ri.iradon(sino, theta=omega, output_size=sino.shape[0] + pad, projection_shifts=ps,
+                                         filter_name=desc["filter"], interpolation="linear", workers=w)
+            try:
+                rv1, _ = self.recon(sino, omega, pad, shift, 1, None, desc, simulate=False, call=call_v(1))
+                rvw, _ = self.recon(sino, omega, pad, shift, workers, None, desc, simulate=True, call=call_v(workers))
+                meas["varying_shift_calls"] = 1
+                dv = float(np.abs(rvw - rv1).max())
+                if rvw.shape != rv1.shape or not dv <= 1e-9 * max(1.0, float(np.abs(rv1).max())):
+                    viol = V("worker-count-dependent", "iradon with per-projection shifts (%s), workers=%s: differs from workers=1 "
+                                                           "by %.3g (largest value %.3g)" % (desc["varshift"], workers, dv, float(np.abs(rv1).max())))
+            except pysched.Deadlock as e:
+                viol = V("deadlock", str(e))
+            except pysched.StepCap as e:
+                viol = V("no-progress", str(e))
+            except Exception as e:
+                if runner.is_harness_exception(e):
+                    raise
+                viol = V("raises", "iradon(projection_shifts=per projection) raised %s: %s" % (type(e).__name__, e))
         if viol is None and desc.get("halfmask_story"):
             # the same sinogram array is reconstructed, then once with the rarely used half-mask option, then again: the
             # back-projection is a function of the sinogram, which the calls must leave alone
